@@ -213,10 +213,22 @@ func (ex *Exec) ghostSort(name string) string {
 	switch name {
 	case "wrN", "wrClock":
 		return sInt
-	case "ioFail", "tcpDialed":
+	case "ioFail", "tcpDialed", "http.doErr", "http.readErr", "http.parsed":
 		return sBool
+	case "http.status", "http.n":
+		return sInt
 	case "isOpen":
 		return arrSort(sInt, sBool)
+	case "cache.has":
+		return arrSort(sStr, sBool)
+	case "dns.ans":
+		return arrSort(sStr, arrSort(sInt, sBool))
+	case "dns.len":
+		return arrSort(sInt, sInt)
+	case "dns.n":
+		return arrSort(sStr, sInt)
+	case "cache.tag", "cache.ref", "cache.exp":
+		return arrSort(sStr, sInt)
 	case "closeN", "connKind":
 		return arrSort(sInt, sInt)
 	}
@@ -250,7 +262,7 @@ func (ex *Exec) ghostSet(st *State, name, term string) {
 		srt = ex.ghostSort(name)
 		ex.registerKey(key, srt)
 	}
-	st.H[key] = ex.name("g", term, srt)
+	ex.setH(st, key, ex.name("g", term, srt))
 }
 
 // advanceClock lets the ghost clock move forward by an arbitrary non-negative amount.
@@ -294,6 +306,28 @@ func (ex *Exec) globalConst(pi *PtrInfo, st *State) (Val, bool) {
 		return Val{T: et, L: []string{num(int64(ex.w.typeID(v.X.Type()))), name}}, true
 	case *ssa.Function:
 		return Val{T: et, L: []string{"1"}, F: &FuncInfo{Fn: v}}, true
+	case *ssa.MakeClosure:
+		// a method value / closure built at init: the function is known, its bindings are stable unknown values
+		fn, _ := v.Fn.(*ssa.Function)
+		if fn == nil {
+			break
+		}
+		var bind []Val
+		for bi, b := range v.Bindings {
+			ls := leaves(b.Type())
+			bv := Val{T: b.Type(), L: make([]string, len(ls))}
+			for li, l := range ls {
+				name := fmt.Sprintf("gbind!%s!%d!%d", sanitize(full), bi, li)
+				ex.declare(name, l.Sort)
+				bv.L[li] = name
+			}
+			ex.preAssume = append(ex.preAssume, rangeFacts(ls, bv.L, "top!0"))
+			if _, isPtr := b.Type().Underlying().(*types.Pointer); isPtr {
+				ex.preAssume = append(ex.preAssume, not(eq(bv.L[0], "0")))
+			}
+			bind = append(bind, bv)
+		}
+		return Val{T: et, L: []string{"1"}, F: &FuncInfo{Fn: fn, Bind: bind}}, true
 	case *ssa.Alloc:
 		// pointer to a composite literal allocated in init: a sentinel object
 		ref := "gref!" + sanitize(full)
@@ -354,6 +388,13 @@ func (ex *Exec) globalConst(pi *PtrInfo, st *State) (Val, bool) {
 		ex.declare(name, l.Sort)
 		v.L[i] = name
 	}
+	if call, ok := gi.val.(*ssa.Call); ok {
+		if f := call.Call.StaticCallee(); f != nil && f.Pkg != nil && nonNilConstructors[f.Pkg.Pkg.Path()+"."+f.Name()] && len(v.L) == 1 {
+			// library constructors that always return an object
+			ex.used["libspec: "+f.Pkg.Pkg.Path()+"."+f.Name()+" returns a non-nil object"] = true
+			ex.preAssume = append(ex.preAssume, and(app("<=", "1", v.L[0]), app("<=", v.L[0], "top!0")))
+		}
+	}
 	return v, true
 }
 
@@ -393,4 +434,9 @@ func sliceLiteral(s *ssa.Slice) ([]ssa.Value, types.Type, bool) {
 		}
 	}
 	return vals, arr.Elem(), true
+}
+
+// nonNilConstructors: library constructors whose result is never nil.
+var nonNilConstructors = map[string]bool{
+	"github.com/patrickmn/go-cache.New": true,
 }
